@@ -152,21 +152,7 @@ func doWorker(c *vfw.Check, tier string, seed uint64, k, n, secs, maxRuns int, o
 	if n <= 0 {
 		n = 1
 	}
-	for j := 0; ; j++ {
-		if detN > 0 && j >= detN {
-			break
-		}
-		if maxRuns > 0 && j >= maxRuns {
-			break
-		}
-		if j > 0 && time.Now().After(deadline) {
-			break
-		}
-		idx := j*n + k
-		if detN > 0 {
-			idx = j * n // re-run worker 0's indices
-		}
-		tape := seamrt.NewTape(mix(seed, uint64(idx)))
+	process := func(tape *seamrt.Tape, idx int, j int) bool {
 		r := vfw.Execute(c, tier, seed, idx, tape, false, scratch)
 		res.Runs++
 		res.Cases += r.NCases
@@ -211,7 +197,7 @@ func doWorker(c *vfw.Check, tier string, seed uint64, k, n, secs, maxRuns int, o
 			res.Errors = append(res.Errors, fmt.Sprintf("run %d: %s", idx, r.Err))
 			fmt.Fprintf(os.Stderr, "HARNESS-TROUBLE property=%s run=%d: %s\n", c.ID, idx, r.Err)
 			code = 2
-			break
+			return false
 		}
 		if r.Viol != nil && detN == 0 {
 			// minimise, write replay, report
@@ -224,7 +210,7 @@ func doWorker(c *vfw.Check, tier string, seed uint64, k, n, secs, maxRuns int, o
 				res.KnownSeen[f.Signature]++
 				path := fmt.Sprintf("/verif/replays/known/%s-%s.json", c.ID, sanitize(f.Signature))
 				if _, err := os.Stat(path); err == nil {
-					continue
+					return true
 				}
 				res.KnownSeen[f.Signature]--
 				mb = 10 * time.Second
@@ -238,7 +224,7 @@ func doWorker(c *vfw.Check, tier string, seed uint64, k, n, secs, maxRuns int, o
 					res.Errors = append(res.Errors, fmt.Sprintf("run %d: violation %q did not reproduce from its own tape (harness nondeterminism)", idx, r.Viol.Pred))
 					fmt.Fprintf(os.Stderr, "HARNESS-TROUBLE property=%s run=%d: violation %q (%s) did not reproduce from its own tape\n", c.ID, idx, r.Viol.Pred, r.Viol.Detail)
 					code = 2
-					break
+					return false
 				}
 			}
 			rf := &vfw.ReplayFile{Property: c.ID, Tier: tier, Seed: seed, RunIndex: idx, Violation: fr.Viol, Tape: fr.Tape.Rec,
@@ -248,7 +234,7 @@ func doWorker(c *vfw.Check, tier string, seed uint64, k, n, secs, maxRuns int, o
 				res.KnownSeen[f.Signature]++
 				path := fmt.Sprintf("/verif/replays/known/%s-%s.json", c.ID, sanitize(f.Signature))
 				vfw.WriteReplay(path, rf)
-				continue
+				return true
 			}
 			path := fmt.Sprintf("/verif/replays/%s-%d-%d.json", c.ID, seed, idx)
 			if err := vfw.WriteReplay(path, rf); err != nil {
@@ -258,6 +244,44 @@ func doWorker(c *vfw.Check, tier string, seed uint64, k, n, secs, maxRuns int, o
 			fmt.Printf("VIOLATION property=%s replay=%s\n", c.ID, path)
 			fmt.Printf("  predicate: %s\n  detail: %s\n  minimised tape: %d choices (from %d) in %d runs\n", fr.Viol.Pred, fr.Viol.Detail, len(fr.Tape.Rec), len(tape.Rec), mruns)
 			code = 1
+			return false
+		}
+			return true
+	}
+	// frozen regression tapes of earlier violations first (worker 0 only)
+	if k == 0 && detN == 0 {
+		files, _ := filepath.Glob(fmt.Sprintf("/verif/replays/regress/%s-*.json", c.ID))
+		sort.Strings(files)
+		for fi, f := range files {
+			rf, err := vfw.ReadReplay(f)
+			if err != nil {
+				continue
+			}
+			vals := make([]int, len(rf.Tape))
+			for i, ch := range rf.Tape {
+				vals[i] = ch.V
+			}
+			res.Probes["regression_tapes_replayed"]++
+			if !process(seamrt.ReplayTape(vals), -1000-fi, 1000) {
+				break
+			}
+		}
+	}
+	for j := 0; code == 0; j++ {
+		if detN > 0 && j >= detN {
+			break
+		}
+		if maxRuns > 0 && j >= maxRuns {
+			break
+		}
+		if j > 0 && time.Now().After(deadline) {
+			break
+		}
+		idx := j*n + k
+		if detN > 0 {
+			idx = j * n // re-run worker 0's indices
+		}
+		if !process(seamrt.NewTape(mix(seed, uint64(idx))), idx, j) {
 			break
 		}
 	}
@@ -527,6 +551,10 @@ func doReplay(c *vfw.Check, path string, scratch string) int {
 		for _, l := range r.W.Trace {
 			fmt.Println(l)
 		}
+	}
+	if r.Err != "" && strings.Contains(r.Err, "tape mismatch") && r.Viol == nil && repoTree() != rf.RepoTree {
+		fmt.Printf("replay of %s: the run leaves the recorded schedule without violating (%s); /repo differs from the recorded tree %q - the defect is fixed or the code path changed\n", path, r.Err, rf.RepoTree)
+		return 0
 	}
 	if r.Err != "" {
 		fmt.Fprintf(os.Stderr, "HARNESS-TROUBLE: replay: %s\n", r.Err)
